@@ -402,14 +402,19 @@ def binop(interp, op, a, b, st, node):
         # dot product of two vectors = sum of the elementwise product
         term = T("sum", T("mul", a.term, b.term))
     if name == "mul":
-        if sa == ():
+        if sa == () and sb == ():
+            # both factors are scalars: both commute (rtol * |m| is |m| * rtol)
+            term = T("smul", a.term, T("smul", b.term, const(1)))
+        elif sa == ():
             term = T("smul", a.term, b.term)
         elif sb == ():
             term = T("smul", b.term, a.term)
         elif sa is not None and sb is not None:
             term = _diag_scaling(a, b, sa, sb, False) or term
     elif name == "div":
-        if sb == ():
+        if sa == () and sb == ():
+            term = T("smul", a.term, T("sdiv", const(1), b.term))
+        elif sb == ():
             term = T("sdiv", a.term, b.term)
         elif sa is not None and sb is not None and sa != ():
             term = _diag_scaling(a, b, sa, sb, True) or term
@@ -944,6 +949,10 @@ def loop_element(interp, it, lid, st):
     if it.kind == "enumerate":
         inner = it.items[0]
         i = V("int", T("lv", lid), shape=(), labels=labels, extra=("index", Dim(0), length_dim(interp, inner) or Dim.unknown("len")))
+        if inner.kind == "zip" and inner.items is not None:
+            # enumerate(zip(a, b)): position and the tuple of the elements at that position
+            x = interp.mk_tuple([subscript(interp, z, i, st, None) if z.kind in ("arr", "list", "tuple") else V("unk", T("getitem", z.term, i.term), labels=labels) for z in inner.items])
+            return interp.mk_tuple([i, x])
         x = subscript(interp, inner, i, st, None) if inner.kind in ("arr", "list", "tuple") else V("unk", T("getitem", inner.term, i.term), labels=labels)
         if inner.kind in ("list", "tuple") and inner.items is None and x.kind == "arr" and x.shape is None:
             x = V("unk", x.term, labels=labels, orig=inner.orig)
